@@ -8,6 +8,7 @@ import time
 
 import numpy as np
 import z3
+import os
 
 from pyvc.api import Contract, NDArr, Obj, conj, farr, real_matrix, reals, shell, source
 from pyvc.libmodels import det3
@@ -183,6 +184,8 @@ def build(ctx):
                       clause="the matrix handed to the SVD is A^T B (rows of A against rows of B, in this order)", replay=replay_for("optimal", "congruent"), fn=f_kab)
             conds = S.ite_conditions(list(Rd.reshape(-1)))
             dets = o["det"]
+            if os.environ.get("PYVC_DEBUG") and N == 3:
+                print("C18DBG paths", len(res), "path", k, "conds", [str(c_)[:100] for c_ in conds], "pc tail", [str(c_)[:100] for c_ in r.pc][-2:], "R00", str(Rd[0, 0])[:300])
             if len(conds) > 1 or len(dets) != 2:
                 ctx.prove(lab + "branch" + psfx, r.pc, z3.BoolVal(False), clause="one reflection test on det(v) * det(w)", replay=replay_for("det", "optimal", "mirror"), fn=f_kab)
                 continue
@@ -206,9 +209,17 @@ def build(ctx):
                         for j in range(3):
                             Rc[i, j] = S.subst_cond(Rd[i, j], cond, val)
                     cases.append((sg, [neg if val else z3.Not(neg)], Rc, "reflected" if val else "plain"))
-            else:   # no branch in R at all: both sign cases still have to satisfy the contract
+            else:   # no branch inside R (the reflection test forked into separate paths, or there is none): on THIS path both sign cases still have to satisfy the contract
                 for sg, hy, nm in ((-1, [neg], "reflected"), (1, [z3.Not(neg)], "plain")):
-                    cases.append((sg, hy, Rd, nm))
+                    pcb = [c_ for c_ in r.pc if z3.is_expr(c_) and z3.is_bool(c_)]
+                    sol = z3.Solver()
+                    sol.set("timeout", 3000)
+                    sol.add(*(pcb + hy))
+                    if os.environ.get("PYVC_DEBUG"):
+                        print("C18DBG", N, k, nm, sol.check(), [str(c_)[:80] for c_ in pcb][-3:], str(neg))
+                    if sol.check() == z3.unsat:
+                        continue            # this sign case cannot occur on this path (the reflection test was decided the other way): nothing to prove
+                    cases.append((sg, hy + pcb, Rd, nm))
             for sg, case_hyp, Rc, nm in cases:
                 csfx = f"/{nm}" + psfx
                 D = [1, 1, sg]
